@@ -20,7 +20,7 @@ already-clamped bytes, Ed25519 DER, PEM wrapping; list of 1..4 derivation paths 
 `mlar keygen --seed` and `mlar keyderive`. Oracle = the README algorithm re-implemented in the harness (SHA-512 -> own \
 ChaCha20 block function -> 32 bytes; HKDF-SHA512 salt 'PATH DERIVATION', ikm = clamped secret, info = path), compared with \
 the key files mlar writes (private keys compared as clamped scalars, public file = X25519 base-point multiple of the private \
-key); same inputs twice give identical files, the second run writing over longer stale key files left at its output locations; deriving along (p1..pn) equals deriving step by step. Non-trivial = derivation \
+key); same inputs twice give identical files (also when the standard error is a device that refuses writes, if the command exits 0), the second run writing over longer stale key files left at its output locations; deriving along (p1..pn) equals deriving step by step. Non-trivial = derivation \
 with >= 2 paths or a parent whose stored bytes differ from their clamped form; distinct = hash of the case";
 
 #[derive(Clone, Debug, Serialize, Deserialize)]
@@ -89,6 +89,20 @@ fn oracle(c: &Case, st: &mut Stats) -> Result<(), String> {
     let k2 = read_priv(&s.join("k2"))?;
     if k1 != k2 || std::fs::read(s.join("k1.pub")).ok() != std::fs::read(s.join("k2.pub")).ok() || std::fs::read(s.join("k1")).ok() != std::fs::read(s.join("k2")).ok() {
         return Err(format!("keygen --seed {:?} run twice gives different key files", c.seed));
+    }
+    // the environment is an input too: with a standard error that cannot be written (the warning about seeded
+    // generation goes there) the command may fail, but a run that exits 0 has written the documented key
+    if c.parent_form % 2 == 0 && std::path::Path::new("/dev/full").exists() {
+        if let Ok(o) = cli::mlar_stderr_full(&["keygen", "k3", &format!("--seed={}", c.seed)], d) {
+            if o.status.success() {
+                st.label("keygen with unwritable stderr: exit 0");
+                if std::fs::read(s.join("k3")).ok() != std::fs::read(s.join("k1")).ok() || std::fs::read(s.join("k3.pub")).ok() != std::fs::read(s.join("k1.pub")).ok() {
+                    return Err(format!("keygen --seed {:?} with an unwritable standard error exits 0 but writes other key files than with a writable one", c.seed));
+                }
+            } else {
+                st.label("keygen with unwritable stderr: refused");
+            }
+        }
     }
     let want = documented_keygen(&c.seed);
     if cli::clamp(k1) != cli::clamp(want) {
